@@ -44,12 +44,41 @@ RULE = ("purity: every call of the catalogue (VE/BP/CausalInference queries incl
         "insertion order or the engine.  Non-trivial: network has >=1 edge and the "
         "question has an eliminated or observed variable; distinct = distinct (stream, call, network, question, "
         "representation)")
+RULE += (
+    "  GENERALISATION CLASSES (notes/GENERALISATION_CHECKLIST.md): "
+    "A sessions: history stream (VE/BP: related questions, calibrate/max_calibrate/induced_graph and rejected calls in "
+    "between, every answer vs fresh engine and vs the extracted model), session stream (one BayesianModelSampling / "
+    "CausalInference / estimator / score / ScoreCache object; fit again on other data; the caller edits the model with "
+    "add_cpds between questions for VE, CausalInference, sampler - BeliefPropagation is a snapshot after its first "
+    "query by design and is left out of the edit sessions; graph mutators belong to C15).  "
+    "B argument purity: deep snapshots of every argument; evidence dicts, State lists, do dicts and virtual-evidence "
+    "lists are the SAME objects across the calls of a session.  "
+    "C result independence: resindep stream (values arrays, state-name lists, variables/cardinality of every returned "
+    "object edited in place, then the call repeated; constructors from a reused ndarray buffer, other.values, "
+    "other.get_values(), and a state_names dict the caller keeps using).  "
+    "D frames: datarepr frame axis (shifted/permuted/gapped/duplicate/string index, row order, categorical, bool, "
+    "column order) and purity data (unused categories, index variants); a constant column is a cardinality-1 variable.  "
+    "E names: str/int/tuple/mixed, substring families (x1/x10/__x1), format keywords; writers keep string names "
+    "(round trips are C09).  F states: str, same across variables, 0-based, 1-based, permuted ints, booleans, big ints; "
+    "statenames stream for CPDs disagreeing on order/set.  G sizes: 1-node and edgeless networks, cardinality 1, "
+    ">=9-variable factors and a 10-node network with int names, seed=0, empty evidence; "
+    "0-vs-None numeric options of the searches are C11's.  H magnitudes: potentials scaled by 2^+-900 (2^+-100 for "
+    "float32), probabilities 2^-20..2^-40 and 40-bit probabilities, exact zeros; tolerances are RELATIVE to the exact "
+    "rational.  I backends: numpy, torch float64, torch float32 for factor operations, exact inference (repr), "
+    "histories and result independence; samplers/estimators are numpy-only in the property.  J variants: "
+    "greedy/MinFill/MinNeighbors/MinWeight/WeightedMinFill/explicit elimination orders, joint=False (VE and BP), "
+    "map_query with and without variables, max_marginal, CausalInference with ve/bp and do/evidence, samplers "
+    "(forward/rejection/likelihood weighted, Gibbs chain), use_cache on/off, K2/BDeu/BDs/BIC/AIC.  "
+    "BeliefPropagationWithMessagePassing (factor graphs) is not an engine of this property's quantifier.  "
+    "K rejected calls: a variable both asked and observed, a LATER evidence item with an unknown state, virtual "
+    "evidence of the wrong cardinality, an unknown variable - the extracted model decides (q_valid), pgmpy must "
+    "raise and leave no trace.  L orders: node/edge/CPD/parent insertion orders, elimination orders, hash seeds, "
+    "evidence-dict order, query-list order, row and column order.  M budget: handled by tools/check.py.")
 TRUSTED_BASE = ["deep snapshots compare graph nodes/edges/latents, CPD scopes/cardinalities/values/state names, "
                 "factor tables, data-frame values+dtypes+index+columns, dict/list arguments; the ORDER of the list "
                 "model.cpds is recorded as an observation only (writers sort it in place; content is equal)",
                 "CPython hashing, torch kernels and the process-global pgmpy config are exercised, not modelled"]
 ASSUMPTIONS = ["node and state names are interned to nat identifiers by the harness",
-               "samplers are called with string or 0..k-1 state names (permuted integer state names are C07's D16)",
                "estimators get int / categorical columns (pandas-3 str columns are rejected by preprocess_data)"]
 
 TOL = 1e-9
@@ -61,9 +90,9 @@ def _fr(q):
     return [q.numerator, q.denominator]
 
 
-def gen_net(rng, n, maxcard=3, p=None):
+def gen_net(rng, n, maxcard=3, p=None, card1=0.0, tiny=0.1):
     nodes, edges = common.rand_dag(rng, n, p)
-    cards = [rng.choice([2, 2, 3]) if maxcard >= 3 else 2 for _ in range(n)]
+    cards = [(1 if rng.random() < card1 else rng.choice([2, 2, 3])) if maxcard >= 3 else 2 for _ in range(n)]
     parents = {i: [] for i in range(n)}
     for u, v in edges:
         parents[v].append(u)
@@ -74,11 +103,41 @@ def gen_net(rng, n, maxcard=3, p=None):
         ncol = 1
         for q in ps:
             ncol *= cards[q]
-        cols = [common.rand_column(rng, cards[i], zeros=(rng.random() < 0.15)) for _ in range(ncol)]
+        cols = []
+        for _ in range(ncol):
+            col = common.rand_column(rng, cards[i], zeros=(rng.random() < 0.15))
+            if cards[i] >= 2 and rng.random() < tiny:
+                # a column with a tiny entry (floats stay exact): magnitudes far from 1
+                e = Fraction(1, 2 ** rng.choice([20, 30, 40]))
+                col = [e, 1 - e] + [Fraction(0)] * (cards[i] - 2)
+                rng.shuffle(col)
+            elif rng.random() < tiny:
+                # probabilities that need more than 24 significant bits (not representable in float32)
+                den = 2 ** 40
+                cuts = sorted(rng.randint(1, den - 1) for _ in range(cards[i] - 1))
+                col = [Fraction(y - x, den) for x, y in zip([0] + cuts, cuts + [den])]
+            cols.append(col)
         # flat row-major over [child] + parents
         flat = [_fr(cols[c][s]) for s in range(cards[i]) for c in range(ncol)]
         cpt.append({"parents": ps, "flat": flat})
     return {"n": n, "cards": cards, "edges": [list(e) for e in edges], "cpt": cpt}
+
+
+def wide_net(rng):
+    """10 binary nodes: 0..7 roots, 8 has the eight roots as parents (a 9-variable CPD), 9 has parents 8 and 0"""
+    n = 10
+    parents = {i: [] for i in range(8)}
+    parents[8] = list(range(8))
+    rng.shuffle(parents[8])
+    parents[9] = [8, 0]
+    cpt = []
+    for i in range(n):
+        ncol = 2 ** len(parents[i])
+        cols = [common.rand_column(rng, 2, zeros=False) for _ in range(ncol)]
+        cpt.append({"parents": parents[i], "flat": [_fr(cols[c][s]) for s in range(2) for c in range(ncol)]})
+    edges = [[q, i] for i in range(n) for q in parents[i]]
+    rng.shuffle(edges)
+    return {"n": n, "cards": [2] * n, "edges": edges, "cpt": cpt}
 
 
 def connected(net):
@@ -123,12 +182,25 @@ def nonstring_diag(exc, rep, rerun_plain):
         return False
 
 
+NAME_POOLS = {
+    # one name a substring of another, "__" prefixes as used for virtual-evidence children
+    "substr": ["x1", "x10", "x", "x11", "G", "G2", "__x1", "__G", "_x", "x1_"],
+    # names that are keywords of the export formats / of python string formatting
+    "kw": ["variable", "probability", "network", "node", "states", "table", "default", "property", "potential", "{}"],
+}
+
+
 def gen_rep(rng, net, names=None, states=None, shuffle=True):
     n = net["n"]
-    style = names or rng.choice(["str", "str", "int", "tuple", "mixed"])
-    nm = common.node_names(rng, n, style)
+    style = names or rng.choice(["str", "str", "int", "tuple", "mixed", "substr", "kw"])
+    if style in NAME_POOLS:
+        nm = list(NAME_POOLS[style])
+        rng.shuffle(nm)
+        nm = nm[:n]
+    else:
+        nm = common.node_names(rng, n, style)
     nm = [list(x) if isinstance(x, tuple) else x for x in nm]
-    sstyle = states or rng.choice(["str", "str", "int", "bigint", "default"])
+    sstyle = states or rng.choice(["str", "str", "int", "bigint", "default", "permint", "onebased", "bool", "same"])
     labels = []
     for i in range(n):
         k = net["cards"][i]
@@ -136,16 +208,26 @@ def gen_rep(rng, net, names=None, states=None, shuffle=True):
             pool = ["lo", "mid", "hi", "x", "y", "z", "yes", "no"]
             rng.shuffle(pool)
             labels.append(pool[:k])
+        elif sstyle == "same":          # the same state names for every variable
+            labels.append(["lo", "hi", "mid"][:k])
         elif sstyle == "int":
             labels.append(list(range(k)))
         elif sstyle == "bigint":
             labels.append(rng.sample(range(10, 40), k))
+        elif sstyle == "permint":       # integers that are not their positions
+            lab = list(range(k))
+            rng.shuffle(lab)
+            labels.append(lab)
+        elif sstyle == "onebased" or (sstyle == "bool" and k != 2):
+            labels.append(list(range(1, k + 1)))
+        elif sstyle == "bool":
+            labels.append(rng.choice([[True, False], [False, True]]))
         else:
             labels.append(list(range(k)))
     so = []
     for i in range(n):
         o = list(range(net["cards"][i]))
-        if shuffle and sstyle in ("str", "bigint"):
+        if shuffle and sstyle in ("str", "bigint", "permint", "onebased", "bool", "same"):
             rng.shuffle(o)
         so.append(o)
     node_order = list(range(n))
@@ -203,7 +285,7 @@ DATA_CALLS = ["score_k2", "score_bdeu", "score_bic", "hc_k2_cache", "hc_k2_nocac
 PURITY_CALLS = [
     "ve_query", "ve_query_virt", "ve_map", "ve_map_virt", "ve_maxmarg", "ve_query_order",
     "bp_calibrate", "bp_query", "bp_query_virt", "bp_map", "ci_query",
-    "sample_forward", "sample_rejection", "sample_lw", "simulate", "simulate_virt", "simulate_do",
+    "sample_forward", "sample_rejection", "sample_lw", "gibbs", "simulate", "simulate_virt", "simulate_do",
     "fit_mle", "fit_bayes", "fit_update", "score_k2", "score_bdeu", "score_bic",
     "hc", "hc_lists", "exhaustive", "tree", "pc_indep", "pc_data",
     "write_bif", "write_xmlbif", "write_uai", "write_net",
@@ -230,10 +312,10 @@ def cases(tier, seed):
             if call.startswith("bp_") or call == "to_jt":
                 net = gen_connected_net(rng, n, p=rng.choice([0.5, 0.8]))
             datacall = call.startswith(("fit", "score", "hc", "exh", "tree", "pc_data", "predict"))
-            sampling = call.startswith(("sample", "simulate", "fit", "score", "hc", "exh", "tree", "pc", "predict"))
+            sampling = call.startswith(("sample", "gibbs", "simulate", "fit", "score", "hc", "exh", "tree", "pc", "predict"))
             rep = gen_rep(rng, net,
                           names=("str" if call in ("write_bif", "write_xmlbif", "write_uai", "write_net", "indeps",
-                                                   "pc_indep", "predict")
+                                                   "pc_indep", "predict", "gibbs")
                                  else ("str" if datacall else None)),
                           states=(rng.choice(["str", "default"]) if sampling or call.startswith("write") else None))
             out.append({"kind": "purity", "call": call, "net": net, "rep": rep, "qseed": rng.randint(0, 10**9)})
@@ -267,10 +349,13 @@ def cases(tier, seed):
                 hist.append(gen_related(rng, net, rng.choice(hist)) if rng.random() < 0.85
                             else gen_q(rng, net, final=False))
             final = gen_related(rng, net, rng.choice(hist))
+        # engine-state operations and rejected calls sprinkled into the sequence (never as the final question)
+        for _ in range(rng.choice([0, 1, 1, 2])):
+            hist.insert(rng.randint(0, len(hist)), gen_side_op(rng, net, bp))
         out.append({"kind": "history", "net": net, "rep": rep, "bp": bp, "hist": hist, "final": final,
-                    "related": k % 2})
+                    "related": k % 2, "backend": "torch64" if rng.random() < 0.15 else "numpy"})
     # ---- data-based calls under renamings of the columns (string baseline vs renamed)
-    nd = 3 if tier == "quick" else 14
+    nd = 2 if tier == "quick" else 12
     for call in DATA_CALLS:
         for r in range(nd):
             n = rng.randint(3, 4 if call.startswith("exh") else 5)
@@ -279,6 +364,8 @@ def cases(tier, seed):
             c = {"kind": "datarepr", "call": call, "net": net, "style": style,
                  "dseed": rng.randint(0, 10**9), "nrows": rng.choice([150, 300, 600])}
             out.append(c)
+            out.append(dict(c, style=rng.choice(["str2", "mixed"] if not call.startswith(("exh", "fit")) else ["str2"]),
+                            frame=FRAMES[(r + len(call)) % len(FRAMES)], dseed=rng.randint(0, 10**9)))
             if call == "hc_equiv":   # ties of a score-equivalent score: also under every hash seed, mixed + str2
                 for hs in seeds:
                     out.append(dict(c, style=rng.choice(["mixed", "str2"]), hashseed=hs))
@@ -286,9 +373,12 @@ def cases(tier, seed):
     nr = 40 if tier == "quick" else 300
     for _ in range(nr):
         n = rng.randint(2, 6)
-        engine = rng.choice(["ve", "ve", "ve_minfill", "ve_map", "bp", "bp_map", "ve_maxmarg", "ve_nojoint"])
-        net = gen_connected_net(rng, n, p=rng.choice([0.5, 0.8])) if engine.startswith("bp") else \
-            gen_net(rng, n, p=rng.choice([0.3, 0.5, 0.8]))
+        engine = rng.choice(["ve", "ve", "ve_minfill", "ve_map", "bp", "bp_map", "ve_maxmarg", "ve_nojoint",
+                             "ve_minneighbors", "ve_minweight", "ve_wminfill", "ve_explicit", "bp_nojoint",
+                             "ci_ve", "ci_bp"])
+        n = rng.randint(1, 6) if engine.startswith("ve") else n     # single-node and edgeless networks too
+        net = gen_connected_net(rng, n, p=rng.choice([0.5, 0.8])) if engine[:2] in ("bp", "ci") and engine != "ci_ve" else \
+            gen_net(rng, n, p=rng.choice([0.0, 0.3, 0.5, 0.8]), card1=0.08)
         Q, ev = gen_question(rng, net)
         for hs in seeds:
             rep = gen_rep(rng, net)
@@ -311,12 +401,41 @@ def cases(tier, seed):
             orders.append(o3)
             out.append({"kind": "statenames", "variant": variant, "net": net, "rep": rep, "child": child,
                         "parent": parent, "orders": orders, "pseed": rng.randint(0, 10**9)})
+    # ---- sessions on one sampler / CausalInference / estimator / score object, and engines whose model is edited
+    for sub in SESSION_SUBS:
+        for _ in range(3 if tier == "quick" else 25):
+            out.append(gen_session(rng, sub))
+    # ---- result independence: edit the returned object in place, call again
+    for call in RESINDEP_CALLS:
+        for r in range(2 if tier == "quick" else 10):
+            n = rng.randint(2, 4)
+            net = gen_connected_net(rng, n, p=0.8) if call in ("bp_query", "ci_query") else gen_net(rng, n, p=0.7)
+            out.append({"kind": "resindep", "call": call, "net": net,
+                        "rep": gen_rep(rng, net, states=rng.choice(["str", "default", "permint"])),
+                        "qseed": rng.randint(0, 10**9),
+                        "backend": "torch64" if (r % 2 and call not in ("sample", "simulate", "ci_query")) else "numpy"})
     # ---- factor operations across backends / axis orders
     nf = 30 if tier == "quick" else 300
-    for _ in range(nf):
-        net = gen_net(rng, rng.randint(2, 5), p=0.8)
-        out.append({"kind": "factor", "net": net, "rep": gen_rep(rng, net), "fseed": rng.randint(0, 10**9),
-                    "backend": rng.choice(["numpy", "torch64", "torch32"])})
+    for k in range(nf):
+        net = gen_net(rng, rng.randint(2, 5), p=0.8, card1=0.1)
+        backend = rng.choice(["numpy", "torch64", "torch32"])
+        c = {"kind": "factor", "net": net, "rep": gen_rep(rng, net), "fseed": rng.randint(0, 10**9), "backend": backend}
+        if k % 3 == 0:
+            big = 100 if backend == "torch32" else 900
+            ea = rng.choice([-1, 1]) * rng.randint(big // 3, big)
+            c["scale"] = [ea, -ea + rng.randint(-40, 40)]
+        out.append(c)
+    # >= 9 variables in one factor / one answer, integer names (iteration order of a set of small ints is only
+    # increasing below 8)
+    for k in range(4 if tier == "quick" else 24):
+        net = wide_net(rng)
+        rep = gen_rep(rng, net, names="int", states=rng.choice(["default", "str", "permint"]))
+        out.append({"kind": "factor", "net": net, "rep": rep, "fseed": rng.randint(0, 10**9), "pick": [8, 9],
+                    "backend": ["numpy", "torch64"][k % 2]})
+        out.append({"kind": "repr", "net": net, "rep": rep, "Q": rng.sample([0, 1, 2, 3, 4, 7, 8, 9], 2),
+                    "ev": [[rng.choice([5, 6]), 1]][: k % 2],
+                    "engine": rng.choice(["ve", "ve_minfill", "bp", "ve_map", "ve_nojoint"]), "backend": "numpy",
+                    "hashseed": rng.choice(seeds)})
     return out
 
 
@@ -327,7 +446,13 @@ def gen_q(rng, net, final, want_ev=False):
         size *= c
     # map_query(variables=None): the model's answer is the full joint table, keep it small
     if not want_ev and (r < (0.12 if size <= 36 else 0.0) or (size <= 12 and r < 0.3)):
-        return {"op": "map_all", "Q": None, "ev": [], "virt": None}
+        ev = []
+        if rng.random() < 0.5:
+            _, ev = gen_question(rng, net)
+        virt = gen_virt(rng, net, {v for v, _ in ev}) if rng.random() < 0.3 else None
+        if len(ev) >= net["n"]:
+            ev = ev[:-1]
+        return {"op": "map_all", "Q": None, "ev": ev, "virt": virt}
     Q, ev = gen_question(rng, net)
     for _ in range(8):
         if not want_ev or ev or len(Q) == net["n"]:
@@ -337,12 +462,45 @@ def gen_q(rng, net, final, want_ev=False):
     virt = None
     if op != "maxmarg" and rng.random() < (0.2 if final else 0.4):
         virt = gen_virt(rng, net, set(Q) | {v for v, _ in ev})
-    return {"op": op, "Q": Q, "ev": ev, "virt": virt}
+    return {"op": op, "Q": Q, "ev": ev, "virt": virt, "evshuffle": rng.randint(1, 999) if len(ev) > 1 else 0}
+
+
+def gen_side_op(rng, net, bp):
+    """between two questions: calls that rebuild/cache engine structures, and calls that must be rejected"""
+    r = rng.random()
+    n = net["n"]
+    if r < 0.35:
+        return {"op": ("calibrate" if rng.random() < 0.5 else "max_calibrate") if bp else "induced",
+                "Q": [], "ev": [], "virt": None, "oseed": rng.randint(0, 999)}
+    Q, ev = gen_question(rng, net)
+    kind = rng.choice(["common", "ev_state", "virt_card", "unknown_var"])
+    q = {"op": rng.choice(["query", "map"]), "Q": Q, "ev": ev, "virt": None, "bad": kind}
+    if kind == "common":          # a variable both asked and observed
+        q["ev"] = ev + [[Q[0], 0]]
+    elif kind == "ev_state":      # a LATER evidence item names a state that does not exist
+        if n >= 3 and rng.random() < 0.7:
+            # ask about early nodes only, so that the engine has PRUNED most of the network when it fails
+            order = topo(net)
+            Q, ev = [order[0]], []
+            q["Q"], q["ev"] = Q, ev
+        v = rng.choice([x for x in (topo(net)[:2] if not ev and n >= 3 else range(n))
+                        if x not in Q and x not in [a for a, _ in ev]] or [None])
+        if v is None:
+            q["ev"] = [[Q[0], 0]]
+            q["bad"] = "common"
+        else:
+            q["ev"] = ev + [[v, net["cards"][v]]]
+    elif kind == "virt_card":     # virtual evidence of the wrong cardinality
+        v = rng.randrange(n)
+        q["virt"] = [[v, [_fr(Fraction(1, 2))] * (net["cards"][v] + 1)]]
+    else:                         # a variable that is not in the model
+        q["Q"] = Q + [n + 50]
+    return q
 
 
 def gen_related(rng, net, prev):
     """a question deliberately related to an earlier one of the same engine"""
-    if prev["Q"] is None or prev["op"] == "maxmarg":
+    if prev["Q"] is None or prev["op"] not in ("query", "map") or prev.get("bad"):
         return gen_q(rng, net, final=True)
     Q, ev, virt = list(prev["Q"]), [list(x) for x in prev["ev"]], prev["virt"]
     op = prev["op"] if rng.random() < 0.7 else rng.choice(["query", "map"])
@@ -501,11 +659,21 @@ def canon_factor(b, phi, Q, extra=None):
     return out
 
 
+def rel_close(a, b, tol):
+    """a: implementation float, b: exact value.  RELATIVE to the exact value (an exact zero must be ~0)."""
+    a, b = float(a), float(b)
+    if a != a or b != b:
+        return False
+    if b == 0:
+        return abs(a) <= 1e-300 or abs(a) <= tol * 1e-6
+    return abs(a - b) <= tol * abs(b)
+
+
 def cmp_tables(got, want, tol):
     if set(got) != set(want):
         return "keys differ: %r vs %r" % (sorted(got), sorted(want))
     for k in want:
-        if not common.approx(got[k], want[k], tol):
+        if not rel_close(got[k], want[k], tol):
             return "at %r: got %r want %r" % (k, got[k], float(want[k]))
     return None
 
@@ -680,6 +848,10 @@ def run_case(case, drv):
             return run_datarepr(case, drv)
         if k == "statenames":
             return run_statenames(case, drv)
+        if k == "session":
+            return run_session(case, drv)
+        if k == "resindep":
+            return run_resindep(case, drv)
     finally:
         if not backend_clean():
             from pgmpy import config
@@ -697,14 +869,28 @@ def ask_pgmpy(b, net, engine, Q, ev, virt=None):
     kw = {"show_progress": False}
     if virt:
         kw["virtual_evidence"] = virt_cpds(b, net, virt)
-    if engine in ("ve", "ve_minfill", "ve_nojoint"):
+    HEUR = {"ve_minfill": "MinFill", "ve_minneighbors": "MinNeighbors", "ve_minweight": "MinWeight",
+            "ve_wminfill": "WeightedMinFill"}
+    if engine in ("ve", "ve_nojoint", "ve_explicit") or engine in HEUR:
         ve = VariableElimination(b.model)
-        if engine == "ve_minfill":
-            kw["elimination_order"] = "MinFill"
+        if engine in HEUR:
+            kw["elimination_order"] = HEUR[engine]
+        if engine == "ve_explicit":
+            rest = [b.names[v] for v in range(net["n"]) if v not in Q and v not in [x for x, _ in ev]]
+            random.Random(len(rest) * 7 + len(Q)).shuffle(rest)
+            kw["elimination_order"] = rest
         if engine == "ve_nojoint":
             r = ve.query(names, evidence=evd, joint=False, **kw)
             return ("marginals", {q: canon_factor(b, r[b.names[q]], [q]) for q in Q})
         return ("table", canon_factor(b, ve.query(names, evidence=evd, **kw), Q))
+    if engine == "bp_nojoint":
+        r = BeliefPropagation(b.model).query(names, evidence=evd, joint=False, **kw)
+        return ("marginals", {q: canon_factor(b, r[b.names[q]], [q]) for q in Q})
+    if engine in ("ci_ve", "ci_bp"):
+        from pgmpy.inference import CausalInference
+
+        r = CausalInference(b.model).query(names, evidence=evd, inference_algo=engine[3:], show_progress=False)
+        return ("table", canon_factor(b, r, Q))
     if engine == "ve_map":
         r = VariableElimination(b.model).map_query(names, evidence=evd, **kw)
         return ("map", {b.idx[v]: b.lab2canon[b.idx[v]][s] for v, s in r.items()})
@@ -808,13 +994,22 @@ def run_factor(case, drv):
     net, rep = case["net"], case["rep"]
     rng = random.Random(case["fseed"])
     tol = TOL32 if case["backend"] == "torch32" else TOL
-    tags = ["factor", "backend=" + case["backend"]]
-    key = common.canon_key(["factor", net, rep, case["fseed"], case["backend"]])
+    tags = ["factor", "backend=" + case["backend"], "scope>=9" if case.get("pick") else "scope<9"]
+    key = common.canon_key(["factor", net, rep, case["fseed"], case["backend"], case.get("pick"), case.get("scale")])
     with Backend(case["backend"]):
         b = build(net, rep)
         fs = [c.to_factor() for c in b.model.cpds]
         i, j = rng.randrange(len(fs)), rng.randrange(len(fs))
+        if case.get("pick"):
+            i, j = [[k for k, c in enumerate(b.model.cpds) if b.idx[c.variable] == v][0] for v in case["pick"]]
         f, g = fs[i], fs[j]
+        sa, sb = case.get("scale", [0, 0])
+        if sa or sb:
+            # unnormalised potentials far from 1 (powers of two: the floats stay exact)
+            from pgmpy.factors.discrete import DiscreteFactor
+            f = DiscreteFactor(f.variables, f.cardinality, np_values(f.values) * (2.0 ** sa), state_names=f.state_names)
+            g = DiscreteFactor(g.variables, g.cardinality, np_values(g.values) * (2.0 ** sb), state_names=g.state_names)
+            tags = tags + ["scaled"]
         w = Watch(f=f, g=g, model=b.model)
         prod = f.product(g, inplace=False)
         vi, vj = b.idx[f.variables[0]], b.idx[g.variables[0]]
@@ -825,7 +1020,8 @@ def run_factor(case, drv):
         want = {}
         for full in itertools.product(*[range(net["cards"][q]) for q in scope]):
             a = dict(zip(scope, full))
-            want[full] = fa[1][tuple(a[q] for q in fa[0])] * ga[1][tuple(a[q] for q in ga[0])]
+            want[full] = fa[1][tuple(a[q] for q in fa[0])] * ga[1][tuple(a[q] for q in ga[0])] * \
+                (Fraction(2) ** (sa + sb))
         got = canon_factor(b, prod, scope)
         e = cmp_tables(got, want, tol)
         if e:
@@ -867,6 +1063,7 @@ def run_factor(case, drv):
 
 
 # ------------------------------------------------------------------- history
+SIDE_OPS = ("induced", "calibrate", "max_calibrate")
 VIRT_KEY = None   # repaired in /repo (e568f1b, d456552): a recurrence is an unlisted violation
 
 
@@ -877,12 +1074,36 @@ def q_wire(q):
             [] if not q["virt"] else [[[v, [Fraction(a, c) for a, c in e]] for v, e in q["virt"]]]]
 
 
-def do_question(eng, b, net, q):
-    names = None if q["Q"] is None else [b.names[v] for v in q["Q"]]
-    evd = ev_dict(b, q["ev"])
-    kw = {"show_progress": False}
+def do_question(eng, b, net, q, cache=None):
+    """cache: {key: argument object}; the SAME dict / CPD-list objects are passed again when a question
+    repeats arguments (argument purity is checked on them at the end of the session)"""
+    nb = net["n"]
+
+    def nm(v):
+        return b.names[v] if v < nb else "no_such_node"
+
+    names = None if q["Q"] is None else [nm(v) for v in q["Q"]]
+    evd = {b.names[v]: (b.labels[v][s] if s < net["cards"][v] else "no_such_state") for v, s in q["ev"]}
+    if q.get("evshuffle"):
+        items = list(evd.items())
+        random.Random(q["evshuffle"]).shuffle(items)
+        evd = dict(items)
+    virt = None
     if q["virt"]:
-        kw["virtual_evidence"] = virt_cpds(b, net, q["virt"])
+        if q.get("bad") == "virt_card":
+            from pgmpy.factors.discrete import TabularCPD
+            v, e = q["virt"][0]
+            virt = [TabularCPD(b.names[v], len(e), [[1.0 / len(e)]] * len(e))]
+        else:
+            virt = virt_cpds(b, net, q["virt"])
+    if cache is not None:
+        k1 = ("ev", json_key(q["ev"]), q.get("evshuffle"))
+        evd = cache.setdefault(k1, evd)
+        if virt is not None:
+            virt = cache.setdefault(("virt", json_key(q["virt"]), q.get("bad")), virt)
+    kw = {"show_progress": False}
+    if virt is not None:
+        kw["virtual_evidence"] = virt
     if q["op"] == "query":
         return ("factor", eng.query(names, evidence=evd, **kw))
     if q["op"] in ("map", "map_all"):
@@ -891,7 +1112,20 @@ def do_question(eng, b, net, q):
         if hasattr(eng, "max_marginal"):
             return ("scalar", float(np_values(eng.max_marginal(names, evidence=evd, show_progress=False))))
         return ("factor", eng.query(names, evidence=evd, show_progress=False))
+    if q["op"] == "induced":
+        order = [b.names[v] for v in range(nb)]
+        random.Random(q["oseed"]).shuffle(order)
+        return ("scalar", float(eng.induced_graph(order).number_of_edges()))
+    if q["op"] in ("calibrate", "max_calibrate"):
+        getattr(eng, q["op"])()
+        return ("scalar", float(len(eng.get_clique_beliefs())))
     raise ValueError(q["op"])
+
+
+def json_key(x):
+    import json
+
+    return json.dumps(x, sort_keys=True, default=str)
 
 
 def canon_answer(b, net, ans):
@@ -924,19 +1158,46 @@ def same_answer(x, y):
     return x[1:] == y[1:]
 
 
+class ArgCache(dict):
+    """argument objects reused across the calls of a session, with a deep snapshot taken before first use"""
+
+    def __init__(self):
+        dict.__init__(self)
+        self.snaps = {}
+
+    def setdefault(self, k, v):
+        if k not in self:
+            self[k] = v
+            self.snaps[k] = snap(v)
+        return self[k]
+
+    def changed(self):
+        return [str(k)[:100] for k, v in self.items() if snap(v) != self.snaps[k]]
+
+
 def run_history(case, drv):
+    with Backend(case.get("backend", "numpy")):
+        out = _run_history(case, drv)
+    if out["ok"] and not backend_clean():
+        return bad("backend-not-restored", {}, key=out.get("key"), tags=out.get("tags", []))
+    return out
+
+
+def _run_history(case, drv):
     """EVERY question of the sequence is answered by the shared engine, by a fresh engine and by the
     extracted engine model (with the history so far); all three must agree, and the engine must stay bound
-    to the model it was created on."""
+    to the model it was created on.  Calls the model rejects must be rejected by pgmpy and leave no trace;
+    calibrate / max_calibrate / induced_width in between must not change later answers."""
     from pgmpy.inference import VariableElimination, BeliefPropagation
 
     net, rep, bp = case["net"], case["rep"], case["bp"]
     seq = list(case["hist"]) + [case["final"]]
     final = case["final"]
     tags = ["history", "engine=" + ("bp" if bp else "ve"), "len=%d" % len(seq), "final=" + final["op"],
-            "related=%d" % int(case.get("related", 0)),
-            "virt-questions=%d" % sum(1 for q in seq if q["virt"])]
-    key = common.canon_key(["history", net, rep, bp, seq])
+            "related=%d" % int(case.get("related", 0)), "backend=" + case.get("backend", "numpy"),
+            "virt-questions=%d" % sum(1 for q in seq if q["virt"])] + \
+           sorted(set("sideop=" + (q.get("bad") or q["op"]) for q in seq if q.get("bad") or q["op"] in SIDE_OPS))
+    key = common.canon_key(["history", net, rep, bp, seq, case.get("backend")])
     nontriv = bool(net["edges"]) or case.get("witness", False)
     Eng = BeliefPropagation if bp else VariableElimination
     b = build(net, rep)
@@ -944,23 +1205,57 @@ def run_history(case, drv):
     eng = Eng(b.model)
     nodes0 = sorted(repr(x) for x in eng.model.nodes())
     nb = net["n"]
-    hw = [q_wire(dict(q, bp=bp)) for q in seq]
+    hw = []          # wire form of the QUESTIONS so far (side operations are not questions)
+    cache = ArgCache()
 
     def mname(v):
         return repr(b.names[v]) if v < nb else repr("__" + str(b.names[v - nb]))
 
     for i, q in enumerate(seq):
         where = {"step": i, "of": len(seq), "q": q}
+        if q["op"] in SIDE_OPS:
+            try:
+                do_question(eng, b, net, q)
+            except Exception as e:
+                return bad("impl-exception", dict(where, exc=repr(e)[:300]), key=key, tags=tags)
+            if sorted(repr(x) for x in eng.model.nodes()) != nodes0:
+                return bad("engine-model-residue", dict(where, before=nodes0), key=key, tags=tags)
+            continue
+        qw = q_wire(dict(q, bp=bp))
+        verdict = drv.call_e("c16_history", [nb, net["cards"], model_factors(net), list(hw), qw])
+        hw.append(qw)
+        exc_h = exc_f = None
+        a_h = a_f = a_2 = None
         try:
-            a_h = canon_answer(b, net, do_question(eng, b, net, q))
-            b2 = build(net, rep)
-            a_f = canon_answer(b2, net, do_question(Eng(b2.model), b2, net, q))
-            a_2 = canon_answer(b, net, do_question(eng, b, net, q)) if i == len(seq) - 1 else None
+            a_h = canon_answer(b, net, do_question(eng, b, net, q, cache))
         except Exception as e:
-            return bad("impl-exception", dict(where, exc=repr(e)[:300]), key=key, tags=tags)
+            exc_h = e
+        b2 = build(net, rep)
+        try:
+            a_f = canon_answer(b2, net, do_question(Eng(b2.model), b2, net, q))
+        except Exception as e:
+            exc_f = e
+        if verdict[0] == "err":
+            # the model rejects the call: pgmpy must reject it too (shared and fresh engine), without a trace
+            if exc_h is None or exc_f is None:
+                return bad("rejected-call-answered", dict(where, model_error=verdict[1], shared=str(a_h)[:200],
+                                                           fresh=str(a_f)[:200]), key=key, tags=tags)
+            if sorted(repr(x) for x in eng.model.nodes()) != nodes0:
+                return bad("engine-model-residue", dict(where, before=nodes0, what="after a rejected call",
+                                                         after=sorted(repr(x) for x in eng.model.nodes())),
+                           key=key, tags=tags)
+            continue
+        if exc_h is not None or exc_f is not None:
+            return bad("impl-exception", dict(where, shared=repr(exc_h)[:300], fresh=repr(exc_f)[:300]),
+                       key=key, tags=tags)
+        if i == len(seq) - 1:
+            try:
+                a_2 = canon_answer(b, net, do_question(eng, b, net, q, cache))
+            except Exception as e:
+                return bad("impl-exception", dict(where, exc=repr(e)[:300], what="asked again"), key=key, tags=tags)
+        mod = verdict[1]
         nodes1 = sorted(repr(x) for x in eng.model.nodes())
         # ---- correspondence with the Coq engine model, given the history so far
-        mod = drv.call("c16_history", [nb, net["cards"], model_factors(net), hw[:i], hw[i]])
         m_scope, m_tab, m_after = mod[0], [common.frac(x) for x in mod[1]], mod[2]
         if sorted(mname(v) for v in m_after) != nodes1:
             return bad("engine-model-residue" if nodes1 != nodes0 else "impl!=model",
@@ -1007,6 +1302,10 @@ def run_history(case, drv):
             return bad("engine-model-residue", dict(where, before=nodes0, after=nodes1), key=key, tags=tags)
     if w.diff():
         return bad("mutated-argument", {"call": "engine history", "changed": ["caller's model"]}, key=key, tags=tags)
+    if cache.changed():
+        return bad("mutated-argument", {"call": "engine history", "changed": cache.changed(),
+                                        "what": "evidence dict / virtual evidence list reused across calls"},
+                   key=key, tags=tags)
     return ok(nontriv, key, tags)
 
 
@@ -1042,10 +1341,28 @@ def run_purity(case, drv):
     extra = {}
     obs = []
 
-    def df_for(categorical=None):
+    def df_for(categorical=None, unused_ok=True):
+        import pandas as pd
+
         rows = sample_rows(rng, net, rng.randint(40, 120))
         cat = (rng.random() < 0.5) if categorical is None else categorical
-        return make_df(b, net, rows, cat)
+        df = make_df(b, net, rows, cat)
+        if cat and categorical is None and unused_ok and rng.random() < 0.4:
+            # a categorical column with an UNUSED category (explicit) - still must not be modified
+            c = df.columns[rng.randrange(len(df.columns))]
+            df[c] = pd.Categorical(df[c], categories=list(range(net["cards"][b.idx[c]] + 1)))
+        how = rng.choice(["range", "shift", "perm", "gap", "dup"])
+        if how == "shift":
+            df.index = range(500, 500 + len(df))
+        elif how == "perm":
+            ix = list(range(len(df)))
+            rng.shuffle(ix)
+            df.index = ix
+        elif how == "gap":
+            df.index = [2 * k + 1 for k in range(len(df))]
+        elif how == "dup":
+            df.index = [k // 3 for k in range(len(df))]
+        return df
 
     try:
         if call in ("ve_query", "ve_query_virt", "ve_map", "ve_map_virt", "ve_maxmarg", "ve_query_order"):
@@ -1120,7 +1437,7 @@ def run_purity(case, drv):
             smp = BayesianModelSampling(m)
             evl = [State(b.names[v], b.labels[v][s]) for v, s in ev]
             w = Watch(model=m, evidence=evl)
-            sd = rng.randint(0, 10**6)
+            sd = rng.choice([0, rng.randint(0, 10**6)])
             if call == "sample_forward":
                 f = lambda s_: s_.forward_sample(size=30, seed=sd, show_progress=False)
             elif call == "sample_rejection":
@@ -1138,6 +1455,26 @@ def run_purity(case, drv):
             d3 = f(BayesianModelSampling(build(net, rep).model))
             if snap(d1) != snap(d2) or snap(d1) != snap(d3):
                 return bad("not-repeatable", {"call": call, "note": "same seed, different samples"}, key=key, tags=tags)
+        elif call == "gibbs":
+            from pgmpy.sampling import GibbsSampling
+
+            from pgmpy.factors.discrete import State
+
+            # A Gibbs sampler is a Markov CHAIN object: it keeps its current state between calls by design, and
+            # draws a random start state before seeding.  What must hold: the model is untouched, and two FRESH
+            # samplers with the same explicit start state and seed give the same chain.
+            w = Watch(model=m)
+            sd = rng.choice([0, rng.randint(0, 10**6)])
+
+            def chain():
+                g = GibbsSampling(m)
+                start = [State(v, 0) for v in g.variables]
+                return g.sample(start_state=start, size=12, seed=sd)
+
+            d1, d2 = chain(), chain()
+            if snap(d1) != snap(d2):
+                return bad("not-repeatable", {"call": call, "note": "same start state and seed, different Gibbs chains",
+                                              "seed": sd}, key=key, tags=tags)
         elif call in ("simulate", "simulate_virt", "simulate_do"):
             virt = gen_virt(rng, net, set(Q) | {v for v, _ in ev}) if call == "simulate_virt" else None
             vc = virt_cpds(b, net, virt) if virt else None
@@ -1153,7 +1490,7 @@ def run_purity(case, drv):
                     if ev and prob_evidence(net_do(net, x), ev) < 0.05:
                         ev, evd = [], {}
             w = Watch(model=m, evidence=evd, virtual_evidence=vc, do=do)
-            sd = rng.randint(0, 10**6)
+            sd = rng.choice([0, rng.randint(0, 10**6)])
             d1 = m.simulate(n_samples=12, evidence=evd, virtual_evidence=vc, do=do, seed=sd, show_progress=False)
             if "evidence" in w.diff() and vc and set(evd) - set(ev_dict(b, ev)) == {"__" + str(c.variables[0]) for c in vc} \
                     and all(evd[k] == ev_dict(b, ev)[k] for k in ev_dict(b, ev)):
@@ -1256,7 +1593,7 @@ def run_purity(case, drv):
             from pgmpy.estimators import PC
             from pgmpy.estimators.CITests import chi_square
 
-            df = df_for()
+            df = df_for(unused_ok=False)   # (chi-square on a table with an empty category is C19's subject)
             calls = []
 
             def citest(X, Y, Z, data, **kw):
@@ -1400,6 +1737,8 @@ def net_do(net, x):
 
 # ------------------------------------------------------------------- data-based calls under column renamings
 SORTED_KEY = "mixed-type-names-sorted"
+FRAMES = ["index_shift", "index_perm", "index_gap", "index_dup", "index_str", "row_perm", "row_perm_reset",
+          "categorical", "bool", "col_perm"]
 
 
 def renamed_columns(style, n):
@@ -1437,8 +1776,14 @@ def run_datarepr(case, drv):
     n = net["n"]
     rng = random.Random(case["dseed"])
     rows = sample_rows(rng, net, case["nrows"])
-    tags = ["datarepr", "call=" + call, "style=" + style]
-    key = common.canon_key(["datarepr", call, net, style, case["dseed"], case["nrows"]])
+    frame = case.get("frame", "plain")
+    tags = ["datarepr", "call=" + call, "style=" + style, "frame=" + frame]
+    key = common.canon_key(["datarepr", call, net, style, frame, case["dseed"], case["nrows"]])
+    frng = random.Random(case["dseed"] + 1)
+    row_perm = list(range(len(rows)))
+    frng.shuffle(row_perm)
+    col_perm = list(range(n))
+    frng.shuffle(col_perm)
     base_names = ["V%d" % i for i in range(n)]
     new_names = renamed_columns(style, n)
     pshuffle = [list(net["cpt"][i]["parents"]) for i in range(n)]
@@ -1446,9 +1791,34 @@ def run_datarepr(case, drv):
         rng.shuffle(ps)
     equiv = rng.choice(["bic", "bdeu"])
 
-    def run(names):
+    def run(names, frame="plain"):
         df = pd.DataFrame({i: [r[i] for r in rows] for i in range(n)})
         df.columns = pd.Index(names, tupleize_cols=False)
+        # the same data in another FRAME representation: the index is never data, row order is not data,
+        # a categorical / bool column with exactly the used values is the same column
+        if frame == "index_shift":
+            df.index = range(1000, 1000 + len(df))
+        elif frame == "index_perm":
+            df.index = row_perm
+        elif frame == "index_gap":
+            df.index = [3 * k + 7 for k in range(len(df))]
+        elif frame == "index_dup":
+            df.index = [k // 2 for k in range(len(df))]
+        elif frame == "index_str":
+            df.index = ["r%d" % k for k in range(len(df))]
+        elif frame == "row_perm":
+            df = df.iloc[row_perm]
+        elif frame == "row_perm_reset":
+            df = df.iloc[row_perm].reset_index(drop=True)
+        elif frame == "categorical":
+            for c in list(df.columns):
+                df[c] = pd.Categorical(df[c], categories=sorted(set(df[c])))
+        elif frame == "bool":
+            for i, c in enumerate(list(df.columns)):
+                if net["cards"][i] == 2:
+                    df[c] = df[c].astype(bool)
+        elif frame == "col_perm":
+            df = df[[names[j] for j in col_perm]]
         inv = {nm: i for i, nm in enumerate(names)}
         w = Watch(data=df)
 
@@ -1504,7 +1874,7 @@ def run_datarepr(case, drv):
     except Exception as e:
         return bad("impl-exception", {"call": call, "names": "str", "exc": repr(e)[:300]}, key=key, tags=tags)
     try:
-        got = run(new_names)
+        got = run(new_names, frame)
     except AssertionError as e:
         return bad("mutated-argument", {"call": call, "what": str(e)}, key=key, tags=tags)
     except Exception as e:
@@ -1527,6 +1897,13 @@ def run_datarepr(case, drv):
             return len(x) == len(y) and all(common.approx(a, c, 1e-9) for a, c in zip(x, y))
         return x == y
 
+    if frame == "col_perm" and call in ("hc_k2_cache", "hc_k2_nocache", "hc_equiv", "tree"):
+        # another column ORDER may legitimately change the search path / orientation: require the same skeleton
+        # for the tree and do not compare the hill-climbing DAGs (their scores are compared by score_* cases)
+        if call == "tree" and sorted(tuple(sorted(e)) for e in got) != sorted(tuple(sorted(e)) for e in want):
+            return bad("renaming-changes-answer", {"call": call, "frame": frame, "string_names": str(want)[:300],
+                                                   "renamed": str(got)[:300]}, key=key, tags=tags)
+        return ok(True, key, tags)
     if call == "hc_equiv":
         # repaired in /repo (d77f396): candidate operations are enumerated in column order, and a renaming keeps
         # the column ORDER, so the learned DAG and its total score must be equal up to the renaming
@@ -1611,3 +1988,423 @@ def run_statenames(case, drv):
         # a model whose CPDs label a shared axis differently has no positional meaning: the verdict is rejection
         return bad("inconsistent-state-names-accepted", detail, key=key, tags=tags)
     return ok(True, key, tags + ["verdict=" + verdict])
+
+
+# ------------------------------------------------------------------- sessions on ONE object (other than VE/BP)
+SESSION_SUBS = ["sampler", "ci", "fit_again", "score", "edit_ve", "edit_ci", "edit_sampler"]
+
+
+def gen_session(rng, sub):
+    n = rng.randint(2, 5)
+    net = gen_connected_net(rng, n, p=rng.choice([0.5, 0.8]), ) if sub in ("ci", "edit_ci") else \
+        gen_net(rng, n, p=rng.choice([0.4, 0.8]), tiny=0.0)
+    datasub = sub in ("fit_again", "score")
+    rep = gen_rep(rng, net, names=("str" if datasub else None),
+                  states=("default" if datasub else None))
+    steps = []
+    for _ in range(rng.randint(3, 6)):
+        Q, ev = gen_question(rng, net)
+        if ev and prob_evidence(net, ev) < 0.05:
+            ev = []
+        steps.append({"Q": Q, "ev": ev, "seed": rng.choice([0, 0, 1, 7, rng.randint(0, 10**6)]),
+                      "how": rng.choice(["forward", "rejection", "lw", "lw"]), "size": rng.choice([1, 8, 25]),
+                      "x": rng.randrange(n), "xs": rng.randrange(2), "edit": rng.random() < 0.5,
+                      "eseed": rng.randint(0, 10**9), "pseed": rng.randint(0, 10**9)})
+    # deliberately related neighbours: same evidence with another seed, same seed with other evidence
+    for i in range(1, len(steps)):
+        if rng.random() < 0.5:
+            ev = [e for e in steps[i - 1]["ev"] if e[0] not in steps[i]["Q"]]
+            if not ev or prob_evidence(net, ev) >= 0.05:
+                steps[i]["ev"] = ev
+        elif rng.random() < 0.5:
+            steps[i]["seed"] = steps[i - 1]["seed"]
+    return {"kind": "session", "sub": sub, "net": net, "rep": rep, "steps": steps, "dseed": rng.randint(0, 10**9)}
+
+
+def new_cpd_numbers(rng, net, i):
+    """other numbers for the CPD of node i (same shape): the net after add_cpds(<replacement>)"""
+    import copy
+
+    net2 = copy.deepcopy(net)
+    ncol = 1
+    for q in net["cpt"][i]["parents"]:
+        ncol *= net["cards"][q]
+    cols = [common.rand_column(rng, net["cards"][i], zeros=False) for _ in range(ncol)]
+    net2["cpt"][i]["flat"] = [_fr(cols[c][s]) for s in range(net["cards"][i]) for c in range(ncol)]
+    return net2
+
+
+def run_session(case, drv):
+    import numpy as np
+    import pandas as pd
+
+    sub, net, rep, steps = case["sub"], case["net"], case["rep"], case["steps"]
+    tags = ["session", "sub=" + sub, "len=%d" % len(steps), "names=" + rep["nstyle"], "states=" + rep["sstyle"]]
+    key = common.canon_key(["session", sub, net, rep, steps, case["dseed"]])
+    b = build(net, rep)
+    cache = ArgCache()
+
+    def fail(kind, i, **kw):
+        return bad(kind, dict(kw, sub=sub, step=i, of=len(steps), q=steps[i]), key=key, tags=tags)
+
+    if sub == "sampler":
+        from pgmpy.sampling import BayesianModelSampling
+        from pgmpy.factors.discrete import State
+
+        w = Watch(model=b.model)
+        smp = BayesianModelSampling(b.model)
+
+        def draw(s_, bb, st, c=None):
+            evl = [State(bb.names[v], bb.labels[v][x]) for v, x in st["ev"]]
+            if c is not None:
+                evl = c.setdefault(("evl", json_key(st["ev"])), evl)
+            if st["how"] == "forward" or not st["ev"]:
+                return s_.forward_sample(size=st["size"], seed=st["seed"], show_progress=False)
+            if st["how"] == "rejection":
+                return s_.rejection_sample(evidence=evl, size=min(st["size"], 8), seed=st["seed"], show_progress=False)
+            return s_.likelihood_weighted_sample(evidence=evl, size=st["size"], seed=st["seed"], show_progress=False)
+
+        for i, st in enumerate(steps):
+            try:
+                d_h = draw(smp, b, st, cache)
+                b2 = build(net, rep)
+                d_f = draw(BayesianModelSampling(b2.model), b2, st)
+            except Exception as e:
+                return fail("impl-exception", i, exc=repr(e)[:300])
+            if snap(d_h) != snap(d_f):
+                return fail("history-dependent-answer", i, what="same seed, shared vs fresh sampler differ")
+            d_h.iloc[:, :] = d_h.iloc[::-1].values   # scribbling on a returned frame must not reach the sampler
+        if w.diff() or cache.changed():
+            return bad("mutated-argument", {"sub": sub, "changed": w.diff() + cache.changed()}, key=key, tags=tags)
+    elif sub == "ci":
+        from pgmpy.inference import CausalInference
+
+        w = Watch(model=b.model)
+        eng = CausalInference(b.model)
+
+        def ask(e_, bb, st, c=None):
+            y = [v for v in st["Q"] if v != st["x"]][:1] or [(st["x"] + 1) % net["n"]]
+            do = {bb.names[st["x"]]: bb.labels[st["x"]][st["xs"] % net["cards"][st["x"]]]}
+            evl = [[v, s_] for v, s_ in st["ev"] if v not in y and v != st["x"]]
+            if evl and prob_evidence(net_do(net, st["x"]), evl + [[st["x"], st["xs"] % net["cards"][st["x"]]]]) <= 0:
+                evl = []
+            evd = {bb.names[v]: bb.labels[v][s_] for v, s_ in evl}
+            if c is not None:
+                do = c.setdefault(("do", st["x"], st["xs"]), do)
+                evd = c.setdefault(("ev", json_key(sorted(evd.items(), key=repr))), evd)
+            try:
+                r = e_.query([bb.names[v] for v in y], do=do, evidence=evd,
+                             inference_algo=("bp" if st["seed"] % 2 else "ve"), show_progress=False)
+            except ValueError as e:
+                return ("rejected", str(e)[:60])
+            return ("table", y, canon_factor(bb, r, y))
+
+        for i, st in enumerate(steps):
+            try:
+                a_h = ask(eng, b, st, cache)
+                b2 = build(net, rep)
+                a_f = ask(CausalInference(b2.model), b2, st)
+            except Exception as e:
+                return fail("impl-exception", i, exc=repr(e)[:300])
+            if a_h[0] == a_f[0] == "table" and any(v != v for v in a_h[2].values()) \
+                    and [k for k, v in a_h[2].items() if v != v] == [k for k, v in a_f[2].items() if v != v]:
+                continue   # 0/0 inside the adjustment formula (an impossible do-state): C13's subject; same on both
+            if a_h[0] != a_f[0] or (a_h[0] == "table" and cmp_tables(a_h[2], a_f[2], 1e-12)):
+                return fail("history-dependent-answer", i, with_history=str(a_h)[:300], fresh=str(a_f)[:300])
+        if w.diff() or cache.changed():
+            return bad("mutated-argument", {"sub": sub, "changed": w.diff() + cache.changed()}, key=key, tags=tags)
+    elif sub in ("fit_again", "score"):
+        from pgmpy.models import BayesianNetwork
+        from pgmpy.estimators import (MaximumLikelihoodEstimator, BayesianEstimator, K2Score, BDeuScore, BicScore,
+                                      BDsScore, AICScore, ScoreCache)
+
+        rng = random.Random(case["dseed"])
+        frames = [make_df(b, net, sample_rows(rng, net, rng.choice([40, 90])), rng.random() < 0.5) for _ in range(2)]
+
+        def struct():
+            m = BayesianNetwork()
+            m.add_nodes_from(b.model.nodes())
+            m.add_edges_from(b.model.edges())
+            return m
+
+        def cpd_table(m):
+            return sorted((repr(c.variable), [repr(v) for v in c.variables], np.round(np_values(c.values), 12).tolist())
+                          for c in m.get_cpds())
+
+        if sub == "fit_again":
+            w = Watch(d0=frames[0], d1=frames[1])
+            for est, kw in ((MaximumLikelihoodEstimator, {}), (BayesianEstimator, {"prior_type": "BDeu"}),
+                            (BayesianEstimator, {"prior_type": "K2"})):
+                m = struct()
+                m.fit(frames[0], estimator=est, **kw)
+                m.fit(frames[1], estimator=est, **kw)      # fit AGAIN on other data: a fresh fit on that data
+                f = struct()
+                f.fit(frames[1], estimator=est, **kw)
+                if cpd_table(m) != cpd_table(f):
+                    return bad("history-dependent-answer", {"sub": sub, "estimator": est.__name__, "kw": kw,
+                                                            "what": "second fit differs from a fresh fit on the same data"},
+                               key=key, tags=tags)
+                # one estimator object asked twice, in another node order
+                e1 = est(struct(), frames[1])
+                nodes = list(b.model.nodes())
+                first = {repr(v): np_values(e1.estimate_cpd(v).values).tolist() for v in nodes}
+                again = {repr(v): np_values(e1.estimate_cpd(v).values).tolist() for v in reversed(nodes)}
+                if first != again:
+                    return bad("not-repeatable", {"sub": sub, "estimator": est.__name__}, key=key, tags=tags)
+            if w.diff():
+                return bad("mutated-argument", {"sub": sub, "changed": w.diff()}, key=key, tags=tags)
+        else:
+            df = frames[0]
+            w = Watch(data=df)
+            for S in (K2Score, BDeuScore, BicScore, BDsScore, AICScore):
+                sc = S(df)
+                cached = ScoreCache(S(df), df)
+                asked = []
+                for st in steps * 2:
+                    v = st["x"]
+                    others = [u for u in range(net["n"]) if u != v]
+                    random.Random(st["pseed"]).shuffle(others)
+                    pa = others[: st["size"] % 3]
+                    for plist in (pa, list(reversed(pa))):     # the same parent SET in both orders
+                        pn = [b.names[u] for u in plist]
+                        got = sc.local_score(b.names[v], pn)
+                        gotc = cached.local_score(b.names[v], pn)
+                        want = S(df).local_score(b.names[v], list(pn))
+                        if not (rel_close(got, want, 1e-12) and rel_close(gotc, want, 1e-12)):
+                            return bad("history-dependent-answer",
+                                       {"sub": sub, "score": S.__name__, "var": v, "parents": plist, "asked_before": asked[-6:],
+                                        "shared": got, "cached": gotc, "fresh": want}, key=key, tags=tags)
+                        asked.append([v, plist])
+            if w.diff():
+                return bad("mutated-argument", {"sub": sub, "changed": w.diff()}, key=key, tags=tags)
+    else:
+        # ---- the caller EDITS the model the engine was created on (add_cpds replacing a CPD in place).
+        #      VariableElimination, CausalInference and BayesianModelSampling hold the caller's model object:
+        #      the oracle is an engine freshly built on the current state.
+        from pgmpy.inference import VariableElimination, CausalInference
+        from pgmpy.sampling import BayesianModelSampling
+
+        Eng = {"edit_ve": VariableElimination, "edit_ci": CausalInference, "edit_sampler": BayesianModelSampling}[sub]
+        eng = Eng(b.model)
+        cur = net
+        for i, st in enumerate(steps):
+            if st["edit"]:
+                node = st["x"]
+                cur = new_cpd_numbers(random.Random(st["eseed"]), cur, node)
+                nb_ = build(cur, rep, check=False)
+                b.model.add_cpds(nb_.model.get_cpds(b.names[node]))
+            try:
+                bf = build(cur, rep)
+                if sub == "edit_sampler":
+                    a_h = snap(eng.forward_sample(size=st["size"], seed=st["seed"], show_progress=False))
+                    a_f = snap(Eng(bf.model).forward_sample(size=st["size"], seed=st["seed"], show_progress=False))
+                    same = a_h == a_f
+                else:
+                    names = [b.names[v] for v in st["Q"]]
+                    evd = ev_dict(b, st["ev"]) if prob_evidence(cur, st["ev"]) > 0 else {}
+                    t_h = canon_factor(b, eng.query(names, evidence=evd, show_progress=False), st["Q"])
+                    t_f = canon_factor(bf, Eng(bf.model).query(names, evidence=evd, show_progress=False), st["Q"])
+                    same = cmp_tables(t_h, t_f, 1e-12) is None
+                    ref = ref_posterior(drv, cur, st["Q"], st["ev"] if evd else [])
+                    if cmp_tables(t_f, ref, TOL):
+                        return fail("impl!=model", i, err=cmp_tables(t_f, ref, TOL))
+                    a_h, a_f = t_h, t_f
+            except Exception as e:
+                return fail("impl-exception", i, exc=repr(e)[:300])
+            if not same:
+                return fail("history-dependent-answer", i, what="engine on the edited model vs fresh engine on the current model",
+                            with_history=str(a_h)[:300], fresh=str(a_f)[:300])
+    return ok(True, key, tags)
+
+
+# ------------------------------------------------------------------- result independence
+RESINDEP_CALLS = ["ve_query", "ve_query_minfill", "ve_nojoint", "bp_query", "ve_map", "ci_query", "sample", "simulate",
+                  "to_markov", "do", "model_copy", "cpd_copy", "factor_copy", "factor_ops", "to_factor", "ctor_buffer",
+                  "ctor_state_names"]
+
+
+def scribble(o, depth=0, part="all"):
+    """overwrite, in place, what is reachable inside a RETURNED object.  part: 'values' (arrays, frames),
+    'state_names' (the lists inside state_names dicts), 'structure' (variables / cardinality / dicts / nodes)"""
+    import numpy as np
+    import pandas as pd
+    import networkx as nx
+
+    V, S, T = part in ("all", "values"), part in ("all", "state_names"), part in ("all", "structure")
+    if depth > 4 or o is None:
+        return
+    if hasattr(o, "fill_") and hasattr(o, "detach"):
+        if V:
+            o.fill_(7.0)
+    elif isinstance(o, np.ndarray):
+        if V:
+            if o.ndim == 0:
+                o[()] = 7
+            else:
+                o[...] = 7
+    elif isinstance(o, pd.DataFrame):
+        if V and len(o):
+            o.iloc[:, :] = o.iloc[::-1].values
+    elif isinstance(o, dict):
+        for v in list(o.values()):
+            scribble(v, depth + 1, part)
+        if T:
+            o["zz_extra"] = 1
+    elif isinstance(o, list):
+        for v in o:
+            scribble(v, depth + 1, part)
+        if T:
+            o.reverse()
+    elif isinstance(o, nx.Graph):
+        fs = getattr(o, "factors", [])
+        for c in list(getattr(o, "cpds", [])) + list(fs if not callable(fs) else []):
+            scribble(c, depth + 1, part)
+        if T:
+            o.add_node("zz_extra")
+    elif hasattr(o, "state_names") and hasattr(o, "values"):
+        scribble(o.values, depth + 1, part)
+        if S:
+            for v in o.state_names.values():
+                if isinstance(v, list):
+                    v.reverse()
+                    v.append("zz_extra")
+        if T:
+            if isinstance(o.variables, list):
+                o.variables.reverse()
+            try:
+                o.cardinality[...] = 9
+            except Exception:
+                pass
+
+
+def run_resindep(case, drv):
+    import numpy as np
+    from pgmpy.factors.discrete import TabularCPD, DiscreteFactor
+
+    call, net, rep = case["call"], case["net"], case["rep"]
+    rng = random.Random(case["qseed"])
+    tags = ["resindep", "call=" + call, "backend=" + case.get("backend", "numpy")]
+    key = common.canon_key(["resindep", call, net, rep, case["qseed"], case.get("backend")])
+    with Backend(case.get("backend", "numpy")):
+        b = build(net, rep)
+        m = b.model
+        Q, ev = gen_question(rng, net)
+        names, evd = [b.names[q] for q in Q], ev_dict(b, ev)
+        src = {"model": m}
+        if call in ("ve_query", "ve_query_minfill", "ve_nojoint", "ve_map"):
+            from pgmpy.inference import VariableElimination
+
+            eng = VariableElimination(m)
+            if call == "ve_map":
+                f = lambda: eng.map_query(names, evidence=evd, show_progress=False)
+            else:
+                kw = {"elimination_order": "MinFill"} if call == "ve_query_minfill" else {}
+                f = lambda: eng.query(names, evidence=evd, joint=(call != "ve_nojoint"), show_progress=False, **kw)
+        elif call == "bp_query":
+            from pgmpy.inference import BeliefPropagation
+
+            eng = BeliefPropagation(m)
+            f = lambda: eng.query(names, evidence=evd, show_progress=False)
+        elif call == "ci_query":
+            from pgmpy.inference import CausalInference
+
+            eng = CausalInference(m)
+            f = lambda: eng.query(names, evidence=evd, show_progress=False)
+        elif call == "sample":
+            from pgmpy.sampling import BayesianModelSampling
+
+            eng = BayesianModelSampling(m)
+            f = lambda: eng.forward_sample(size=6, seed=3, show_progress=False)
+        elif call == "simulate":
+            f = lambda: m.simulate(n_samples=5, seed=3, show_progress=False)
+        elif call == "to_markov":
+            f = lambda: m.to_markov_model()
+        elif call == "do":
+            x = b.names[rng.randrange(net["n"])]
+            f = lambda: m.do([x])
+        elif call == "model_copy":
+            f = lambda: m.copy()
+        elif call in ("cpd_copy", "factor_copy", "factor_ops", "to_factor"):
+            cpd = m.get_cpds(b.names[rng.randrange(net["n"])])
+            fac = cpd.to_factor()
+            src["factor"] = fac
+            other = rng.choice(m.cpds).to_factor()
+            src["other"] = other
+            if call == "cpd_copy":
+                f = lambda: cpd.copy()
+            elif call == "to_factor":
+                f = lambda: cpd.to_factor()
+            elif call == "factor_copy":
+                f = lambda: fac.copy()
+            else:
+                x = fac.variables[-1]
+                f = lambda: [fac.product(other, inplace=False), fac.marginalize([x], inplace=False),
+                             fac.maximize([x], inplace=False), fac.reduce([(x, fac.state_names[x][0])], inplace=False),
+                             fac.normalize(inplace=False), fac.copy()] + \
+                            ([fac + other, fac.divide(other, inplace=False)]
+                             if set(other.variables) <= set(fac.variables) else [])
+        elif call == "ctor_buffer":
+            # constructed from the caller's C-contiguous float64 buffer; the buffer is then reused
+            i = rng.randrange(net["n"])
+            cpd = m.get_cpds(b.names[i])
+            buf = np.array(np_values(cpd.get_values()), dtype=np.float64, order="C", copy=True)
+            kw = dict(evidence=list(cpd.variables[1:]) or None, evidence_card=[int(c) for c in cpd.cardinality[1:]] or None,
+                      state_names={k: list(v) for k, v in cpd.state_names.items()})
+            c1 = TabularCPD(cpd.variable, int(cpd.variable_card), buf, **kw)
+            f1 = DiscreteFactor(list(cpd.variables), [int(c) for c in cpd.cardinality], cpd.values)
+            c2 = TabularCPD(cpd.variable, int(cpd.variable_card), cpd.get_values(), **kw)
+            before = (snap(c1), snap(f1), snap(c2), snap(cpd))
+            buf[...] = 1.0 / buf.shape[0]              # the caller reuses its buffer
+            c3 = TabularCPD(cpd.variable, int(cpd.variable_card), buf, **kw)
+            scribble(f1.values)
+            scribble(c2.values)
+            after = (snap(c1), before[1], before[2], snap(cpd))
+            if before != after:
+                return bad("result-aliases-source", {"call": call, "what": "values array shared between an object and "
+                                                     "the array / object it was constructed from"}, key=key, tags=tags)
+            return ok(True, key, tags)
+        elif call == "ctor_state_names":
+            i = rng.randrange(net["n"])
+            cpd = m.get_cpds(b.names[i])
+            sn = {k: list(v) for k, v in cpd.state_names.items()}
+            c1 = TabularCPD(cpd.variable, int(cpd.variable_card), np_values(cpd.get_values()),
+                            evidence=list(cpd.variables[1:]) or None,
+                            evidence_card=[int(c) for c in cpd.cardinality[1:]] or None, state_names=sn)
+            before = snap(c1)
+            for v in sn.values():                      # the caller goes on using its own lists
+                v.reverse()
+            if snap(c1) != before:
+                return bad("result-aliases-source", {"call": call, "part": "state_names",
+                                                     "what": "a CPD keeps the caller's state-name LISTS: editing the "
+                                                             "argument afterwards relabels the CPD"}, key=key, tags=tags)
+            return ok(True, key, tags)
+        else:
+            return bad("bad-case", {"call": call}, key=key, tags=tags)
+        w = Watch(**src)
+        leaks = []
+        try:
+            r1 = f()
+            pristine = snap(r1)
+            for part in ("values", "state_names", "structure"):
+                scribble(r1, part=part)
+                if w.diff():
+                    leaks.append(part)
+                    break          # the source is damaged: a later call is meaningless
+            r2 = None if leaks else f()
+        except Exception as e:
+            import traceback
+            return bad("impl-exception", {"call": call, "exc": repr(e)[:300], "tb": traceback.format_exc()[-800:]},
+                       key=key, tags=tags)
+        if leaks:
+            return bad("result-aliases-source",
+                       {"call": call, "part": leaks[0], "changed": w.diff(),
+                        "what": "editing the RETURNED object in place (%s) changed the source object(s)" % leaks[0]},
+                       key=key, tags=tags + ["diag:aliases-" + leaks[0]])
+        if r2 is r1:
+            return bad("result-aliases-source", {"call": call, "what": "the same object is returned twice"}, key=key, tags=tags)
+        if snap(r2) != pristine and call not in ("sample", "simulate"):
+            return bad("not-repeatable", {"call": call, "what": "second result differs after the first was edited",
+                                          "first": str(pristine)[:300], "second": str(snap(r2))[:300]}, key=key, tags=tags)
+    if not backend_clean():
+        return bad("backend-not-restored", {}, key=key, tags=tags)
+    return ok(True, key, tags)
